@@ -201,7 +201,7 @@ func Run(r *vreport.Run, scs []Scenario) {
 		r.Count("determinism_rechecks", e.DetChecks)
 		r.Bound("scenario:"+sc.Name, map[string]any{"bound": sc.Bound, "bound_completed": e.BoundCompleted, "executions_this_shard": e.Execs, "per_level": e.PerLevel, "max_points": e.MaxPoints, "capped_by": e.CappedBy})
 		if err != nil {
-			r.Cap("infrastructure: " + err.Error())
+			r.Cap("infrastructure: " + sc.Name + ": " + err.Error())
 			r.Count("infrastructure_errors", 1)
 			fmt.Fprintln(os.Stderr, "vexplore:", sc.Name, err)
 		}
